@@ -181,6 +181,14 @@ def gen_expressions(tier):
         exprs = exprs[::6]
     else:
         exprs = exprs[3::6]     # another sixth of the family than the quick tier, with <= 2 arguments per message (the full product is many hours of CPU)
+    # argument lists made of exclusions only - `(! 5)`, `.motion(! x=0)`, `wl_pointer(! nil, [5, 7])`: nothing is demanded, so a message without
+    # arguments is selected too (in both tiers, not thinned)
+    excl = [(None, ('int', 5)), ('x', ('int', 0)), (None, ('nil',)), ('x', None), (None, ('label', 'pressed')), ('list', [(None, ('int', 5)), (None, ('nil',))], [])]
+    for i, it in enumerate(excl):
+        o, n = [(('type', 'wl_pointer'), 'motion'), (None, 'motion'), (('type', 'wl_pointer'), None)][i % 3]
+        exprs.append(([('msg', None, o, n, ([], [it]))], []))
+    exprs.append(([('msg', None, ('idgen', 7, 2), '*', ([], [excl[0], excl[2]]))], []))
+    exprs.append(([('star',)], [('msg', None, None, 'motion', ([], [excl[1]]))]))
     return exprs
 
 
